@@ -705,7 +705,7 @@ type finding struct {
 }
 
 func main() {
-	r := ev.Start("C03", "model_checking", 75*time.Second, 15*time.Minute)
+	r := ev.Start("C03", "model_checking", 60*time.Second, 15*time.Minute)
 	ir.InitWriterGlobals()
 	r.Rule = "every body rendered from a value-level description []Stream{labels,[]Entry{ts,line,value,type}}: per protocol (Loki JSON both layouts, " +
 		"Loki snappy-protobuf, remote-write, Influx line protocol, Datadog logs, Datadog series, OTLP logs) the full product, inside each listed sub-space, of " +
